@@ -249,6 +249,8 @@ def blockedByFile (wd : FMap WFile) (p : Path) : Bool :=
     | some f => !(f.kind == .symlink) || f.res.target == .file
     | none => false)
 
+def hasDescendant {α : Type} (m : FMap α) (p : Path) : Bool := m.keys.any (fun k => isAncestor p k)
+
 inductive View where
   | enoent
   | enotdir
@@ -291,13 +293,15 @@ def entryChanged (wd : FMap WFile) (p : Path) (e : IEntry) : Bool :=
 def lstatRaisesNotDir (wd : FMap WFile) (p : Path) : Bool :=
   !Gen.WorkTree.unstagedCatchesNotDir && blockedByFile wd p
 
+def changedAt (wd : FMap WFile) (index : FMap IEntry) (p : Path) : Bool :=
+  match index.get p with
+  | some e => entryChanged wd p e
+  | none => false
+
 /-- `get_unstaged_changes` -/
 def unstagedOf (wd : FMap WFile) (index : FMap IEntry) : Except WErr (List Path) :=
   if index.keys.any (lstatRaisesNotDir wd) then .error .notADirectory
-  else .ok (index.keys.filter (fun p =>
-    match index.get p with
-    | some e => entryChanged wd p e
-    | none => false))
+  else .ok (index.keys.filter (changedAt wd index))
 
 /-- `changes_from_tree` as consumed by `get_tree_changes`: (add, delete, modify). -/
 def entryDiffers (h : Entry) (i : IEntry) : Bool :=
@@ -309,11 +313,13 @@ def stagedAdd (head : FMap Entry) (index : FMap IEntry) : List Path :=
 def stagedDel (head : FMap Entry) (index : FMap IEntry) : List Path :=
   head.keys.filter (fun p => !index.has p)
 
+def modifiedAt (head : FMap Entry) (index : FMap IEntry) (p : Path) : Bool :=
+  match head.get p, index.get p with
+  | some h, some i => entryDiffers h i
+  | _, _ => false
+
 def stagedMod (head : FMap Entry) (index : FMap IEntry) : List Path :=
-  head.keys.filter (fun p =>
-    match head.get p, index.get p with
-    | some h, some i => entryDiffers h i
-    | _, _ => false)
+  head.keys.filter (modifiedAt head index)
 
 /-- The tree path `path_to_tree_path` computes for a walked file: links are resolved. -/
 def aliasOf (p : Path) (f : WFile) : Path :=
@@ -325,11 +331,13 @@ def aliasOf (p : Path) (f : WFile) : Path :=
 def walkedAsFile (f : WFile) : Bool := !(f.kind == .symlink && f.res.target == .dir)
 
 /-- `get_untracked_paths(untracked_files="all")` without ignore rules. -/
+def untrackedAt (wd : FMap WFile) (index : FMap IEntry) (p : Path) : Bool :=
+  match lstatView wd p with
+  | .file f => walkedAsFile f && !index.has (aliasOf p f)
+  | _ => false
+
 def untrackedOf (wd : FMap WFile) (index : FMap IEntry) : List Path :=
-  wd.keys.filter (fun p =>
-    match lstatView wd p with
-    | .file f => walkedAsFile f && !index.has (aliasOf p f)
-    | _ => false)
+  wd.keys.filter (untrackedAt wd index)
 
 structure Status where
   add : List Path
@@ -403,13 +411,17 @@ def treeOf (index : FMap IEntry) : FMap Entry := index.map (fun kv => (kv.1, kv.
 
 /-! ### fresh checkout (`build_index_from_tree` into an empty directory) -/
 
+/-- The files `build_index_from_tree` writes: one per tree entry, with the observed stat key. -/
+def checkoutFiles (t : FMap Entry) (obs : Obs) : FMap WFile :=
+  t.filterMap (fun kv => (obs.get kv.1).map (fun o => (kv.1, (⟨kv.2.kind, kv.2.cid, o.1, o.2⟩ : WFile))))
+
+def checkedOut (t : FMap Entry) (obs : Obs) : World :=
+  { head := t, index := (checkoutFiles t obs).map (fun kv => (kv.1, kv.2.ientry)), wd := checkoutFiles t obs }
+
 def checkoutFresh (t : FMap Entry) (obs : Obs) : Except WErr World :=
   if !t.keys.all validPath then .error .invalidPath
   else if !t.keys.all obs.has then .error .badObs
-  else
-    let files : FMap WFile := t.filterMap (fun kv =>
-      (obs.get kv.1).map (fun o => (kv.1, (⟨kv.2.kind, kv.2.cid, o.1, o.2⟩ : WFile))))
-    .ok { head := t, index := files.map (fun kv => (kv.1, kv.2.ientry)), wd := files }
+  else .ok (checkedOut t obs)
 
 /-! ### branch switch (`porcelain.checkout(repo, branch)`) -/
 
